@@ -3,12 +3,12 @@ against the REAL runtime classes (type-stripped codegen-v2.ts) + property oracle
 import vcheck
 
 PID = "C12"
-MODULES = ["BeffVerif.Props.C12", "BeffVerif.Props.C12Nonempty", "BeffVerif.Props.C12Paths"]
+MODULES = ["BeffVerif.Props.C12", "BeffVerif.Props.C12Nonempty", "BeffVerif.Props.C12Paths", "BeffVerif.Props.C12Received"]
 AUDIT = "BeffVerif/Audit/C12.lean"
 TAGS = ("c12.",)
 HYP = {"NoEmptyIntersection": "D30"}
 OPEN = [
-    "received_is_value_at_path (the value recorded in an error is the input value at the error's path; needs a semantics of path segments) — not proved; evaluated by the JS oracle on every rejected value. The structural half (every error path extends the inspected path) is report_paths_extend",
+    "received_is_value_at_path is now a theorem (Props/C12Received: report_received_located, safeParse_errors_located) for the relation `At` (array index, property read, Map key / value and Set item by their printed key, and the key itself for an index-signature key error); `At` is a relation, not a function: a Map with two keys that print alike, or a property literally named `[0]`, admit more than one reading of a path — which of them the error means is decided by the JS oracle on every rejected value",
 ]
 RULE = ("same request stream as C03; for every rejected value the oracle checks 1 ≤ #errors ≤ 10, every (nested) path resolves in the input or names a "
         "missing property of an existing object, received equals the value found there (or the key itself for index-signature key errors), "
